@@ -125,8 +125,8 @@ def geninv(vals, masses, levels):
 def cmp_check(G, vals, w):
     """The hypothesis of Props.C08.stacking_same_cmp for one endpoint array, evaluated exactly.
 
-    reference masses  : the exact rationals of the given masses, divided by their exact sum (a valid DS structure)
-    model masses      : the exact rationals of the given masses (what the model is sent; sum 1 +- a few 2^-53)
+    reference masses  : the exact rationals of the given binary64 masses, as given (they sum to one up to an ulp; no
+                        normalisation: a running sum that EQUALS a grid level reaches it) = what the model is sent
     effective masses  : differences of the binary64 cumulated sums numpy produces in get_ecdf (same argsort call)
     hypothesis        : along the value-sorted endpoints, the running sums of the model masses and of the effective
                         masses compare (<=) like the reference running sums against every grid level; both vectors
@@ -145,7 +145,7 @@ def cmp_check(G, vals, w):
     for i in idx_st:
         acc += ew[int(i)]
         mod.append(acc)
-    ref = [c / S for c in mod]
+    ref = mod          # the DS structure AS GIVEN: the exact rationals of the binary64 masses (Props.C08.model_geninv_pos)
     flo = [F(float(c)) for c in cs]
     ssort = [float(sv[int(i)]) for i in idx_st]
     same_order = [int(i) for i in idx] == [int(i) for i in idx_st]
@@ -238,6 +238,41 @@ def hit_masses(rng, n, Gf):
     return None
 
 
+def decimal_hit_masses(rng, n, Gf):
+    """k/1000-style masses: the running sum after `j` elements (in listing order) EQUALS a grid level exactly (exact
+    binary64 additions up to there), the remaining masses are 3-decimal numbers and the last one closes the sum in
+    binary64, so that the float sum is 1 or 1 +- an ulp (and the exact rational sum is usually not one)"""
+    for _ in range(200):
+        j = rng.randint(1, max(1, n - 2))
+        i = rng.randrange(2, len(Gf) - 2)
+        target = Gf[i]
+        if j == 1:
+            head = [target]
+        else:
+            d = 2.0 ** math.floor(math.log2(target / j))
+            head = [d] * (j - 1) + [target - d * (j - 1)]
+        cs = np.cumsum(np.array(head))
+        acc, ok = F(0), True
+        for x, c in zip(head, cs):
+            acc += F(x)
+            ok = ok and F(float(c)) == acc and x > 0
+        if not ok or float(cs[-1]) != target:
+            continue
+        rem = 1.0 - target
+        k = n - j
+        if k < 1:
+            continue
+        tail = [round(rem * rng.uniform(0.3, 1.0) / k, 3) for _ in range(k - 1)]
+        run = float(np.sum(np.array(head + tail)))
+        last = 1.0 - run
+        if last <= 0.002 or any(t <= 0 for t in tail):
+            continue
+        # the closing mass one ulp up / down: the binary64 sum of the masses is then 1 + 2^-52, 1 or 1 - 2^-53
+        last = rng.choice([last, float(np.nextafter(last, 1.0)), float(np.nextafter(last, 0.0)), float(np.nextafter(np.nextafter(last, 1.0), 1.0))])
+        return head + tail + [last], i, j
+    return None
+
+
 def split_case(rng, lo, hi, w):
     """one focal element replaced by 2 or 3 copies sharing its mass (halves/quarters: exact in binary64)"""
     n = len(lo)
@@ -309,6 +344,19 @@ def gen_cases(ctx, Gf):
         else:
             lo, hi = layout(rng, n, "overlapping", lambda: rng.randint(-40, 40))
         family("grid-hit", lo, hi, w)
+    # 2b. decimal masses (k/1000 style) with a running sum exactly on a grid level and a float sum of 1 +- ulp
+    for _ in range(ctx.scale(80, 1500)):
+        n = rng.randint(3, 8)
+        r = decimal_hit_masses(rng, n, Gf)
+        if r is None:
+            continue
+        w, gi, j = r
+        # the first j elements hold the smallest lower AND upper endpoints, in listing order, so that the hit is seen by both bounds
+        lo = sorted(rng.sample(range(-40, 40), n))
+        hi = sorted(a + rng.randint(1, 9) for a in lo)
+        hi = [max(h, l) for h, l in zip(hi, lo)]
+        sc = rng.choice([1.0, 1.0, 2.0 ** -70, 2.0 ** -30, 2.0 ** 36, 1e150, 1e-170])
+        family("grid-hit-decimal", [x * sc for x in lo], [x * sc for x in hi], w)
     # 3. random doubles, 2..50 focal elements
     for _ in range(ctx.scale(150, 2000)):
         n = rng.choice([2, 3, 5, 8, 13, 21, 34, 50, rng.randint(2, 50)])
@@ -318,7 +366,7 @@ def gen_cases(ctx, Gf):
         w = None if mk == "equal" else (random_masses(rng, n) if mk == "random" else dyadic_masses(rng, n, 12))
         family("random", lo, hi, w)
     # 3a. more focal elements than typical chunk sizes (1024), not a multiple of them
-    for nbig in ([1025, 1500] if ctx.tier != "thorough" else [1025, 1500, 2500, 4097]):
+    for nbig in ([198, 199, 200, 201, 1025, 1500] if ctx.tier != "thorough" else [198, 199, 200, 201, 202, 1025, 1500, 2500, 4097]):
         sc = 10 ** rng.uniform(-1, 3)
         lo, hi = layout(rng, nbig, rng.choice(["overlapping", "nested", "repeated"]), lambda: round(rng.uniform(-1, 1) * sc, 3))
         add("random-big", lo, hi, rng.choice([None, random_masses(rng, nbig)]), None, "base")
@@ -457,6 +505,24 @@ def variants(lo, hi, w, rng):
     if ints and min(lo) >= 0:
         V.append(("stacking:2d-uint-array", stacking, (np.array([[int(a), int(b)] for a, b in pairs], dtype=np.uint16),), {"weights": list(wl)}))
         V.append(("dss:vec-Interval-uint", dss, (I(np.array([int(a) for a, _ in pairs], dtype=np.uint64), np.array([int(b) for _, b in pairs], dtype=np.uint64)), list(wl)), {}))
+    # objects rebuilt from their own public read-outs, copies and pickles must convert to the same p-box
+    import copy, pickle
+    mkds = lambda: DS([[a, b] for a, b in pairs], list(wl))
+    V.append(("dss:rebuilt-from-structures", lambda d: DS.from_dsElements(d.structures).to_pbox(), (mkds(),), {}))
+    V.append(("dss:rebuilt-from-intervals-masses", lambda d: DS(d.intervals, d.masses).to_pbox(), (mkds(),), {}))
+    V.append(("dss:rebuilt-from-focal_elements", lambda d: DS(d.focal_elements, [e.mass for e in d.structures]).to_pbox(), (mkds(),), {}))
+    V.append(("dss:copy", lambda d: copy.copy(d).to_pbox(), (mkds(),), {}))
+    V.append(("dss:deepcopy", lambda d: copy.deepcopy(d).to_pbox(), (mkds(),), {}))
+    V.append(("dss:pickle", lambda d: pickle.loads(pickle.dumps(d)).to_pbox(), (mkds(),), {}))
+    V.append(("stacking:deepcopied-operands", lambda ops, weights: stacking(copy.deepcopy(ops), weights=copy.deepcopy(weights)),
+              ([I(a, b) for a, b in pairs], np.array(wl)), {}))
+    V.append(("stacking:pickled-operands", lambda ops, weights: stacking(pickle.loads(pickle.dumps(ops)), weights=pickle.loads(pickle.dumps(weights))),
+              ([I(a, b) for a, b in pairs], list(wl)), {}))
+    if n != 2:      # the documented (2, n) layout: a row of lower endpoints and a row of upper endpoints
+        V.append(("stacking:2xn-array", stacking, (np.array([[a for a, _ in pairs], [b for _, b in pairs]]),), {"weights": list(wl)}))
+        V.append(("dss:2xn-array", dss, (np.array([[float(a) for a, _ in pairs], [float(b) for _, b in pairs]]), np.array(wl)), {}))
+    V.append(("stacking:F-ordered-array", stacking, (np.asfortranarray(np.array(pairs, dtype=float)),), {"weights": list(wl)}))
+    V.append(("stacking:array-view", stacking, (np.array([[0.0, a, b] for a, b in pairs])[:, 1:],), {"weights": np.array([0.0] + wl)[1:]}))
     V.append(("pba.stacking", pba.stacking, ([[a, b] for a, b in pairs],), {"weights": list(wl)}))
     V.append(("mixture:lists", mixture, tuple([a, b] for a, b in pairs), {"weights": list(wl)}))
     V.append(("mixture:Intervals", mixture, tuple(I(a, b) for a, b in pairs), {"weights": np.array(wl)}))
@@ -488,7 +554,7 @@ def call_variant(fn, args, kwargs):
 
 def special_structures(rng, Gf):
     """DS structures aimed at the second-wave themes: thin / tiny / extreme endpoints, tiny extreme masses"""
-    kind = rng.choice(["int-unequal", "int-unequal", "thin", "tiny", "extreme", "tiny-mass", "hit"])
+    kind = rng.choice(["int-unequal", "int-unequal", "thin", "tiny", "extreme", "tiny-mass", "hit", "scaled", "scaled", "zero", "fine-mass"])
     n = rng.randint(2, 6)
     if kind == "thin":            # relative width 1e-9 .. 1e-5, neighbours differing by as little
         base = rng.uniform(1, 100)
@@ -505,6 +571,14 @@ def special_structures(rng, Gf):
         hi = [x + sc * rng.randint(0, 4) for x in lo]
         k = rng.randrange(n)
         lo[k], hi[k] = -1e-20, 1e-20
+    elif kind == "scaled":        # the integer stream at tiny / huge magnitudes (powers of two keep everything exact)
+        sc = rng.choice([2.0 ** -70, 2.0 ** -30, 2.0 ** 36, 1e-19, 1e-170, 1e150])
+        lo, hi = layout(rng, n, rng.choice(LAYOUTS), lambda: rng.randint(-9, 9))
+        lo, hi = [x * sc for x in lo], [x * sc for x in hi]
+    elif kind == "zero":          # falsy-but-valid endpoints: 0, 0.0, -0.0 and the point interval at zero
+        lo, hi = layout(rng, n, rng.choice(LAYOUTS), lambda: rng.randint(-3, 3))
+        k = rng.randrange(n)
+        lo[k], hi[k] = rng.choice([(0.0, 0.0), (-0.0, 0.0), (0, 0), (-2, 0), (0, 3)])
     else:
         lo, hi = layout(rng, n, rng.choice(LAYOUTS), lambda: rng.randint(-9, 9))
     idx = list(range(n))
@@ -518,6 +592,8 @@ def special_structures(rng, Gf):
         w[0], w[k] = w[k], w[0]
     elif kind == "hit":
         w = hit_masses(rng, n, Gf) or dyadic_masses(rng, n, 6)
+    elif kind == "fine-mass":     # masses with more than three significant decimals
+        w = dyadic_masses(rng, n, 16)
     else:
         for _ in range(20):
             w = dyadic_masses(rng, n, rng.choice([4, 6, 8]))
@@ -548,9 +624,7 @@ def run_repr_stream(ctx, G, Gf):
     for ci, ((kind, lo, hi, w), rep) in enumerate(zip(structs, replies)):
         n = len(lo)
         ctx.count(("repr", tuple(lo), tuple(hi), tuple(w)), True, "representations:" + kind)
-        em = exact_masses(n, w)
-        St = sum(em)
-        masses = [m / St for m in em]
+        masses = exact_masses(n, w)
         ok_lo, amb_lo0, _, _ = cmp_check(G, lo, w)
         ok_hi, amb_hi0, _, _ = cmp_check(G, hi, w)
         amb_lo, amb_hi = amb_lo0, amb_hi0
@@ -575,6 +649,8 @@ def run_repr_stream(ctx, G, Gf):
                 badm = [(sd, i) for sd, a, b, amb in (("left", impl[1], model[1], amb_lo), ("right", impl[2], model[2], amb_hi))
                         for i, (x, y) in enumerate(zip(a, b)) if F(x) != y and i not in amb]
                 (ctx.tie_ok() if not badm else ctx.tie_bad("representations:" + name, cj, _short(impl), _short(model)))
+            elif impl[0] == "err" and name in ("dss:copy", "dss:deepcopy", "dss:pickle"):
+                pass        # copying / pickling the object is not part of the modelled conversion: the oracle reports it
             else:
                 ctx.tie_bad("representations:" + name, cj, _short(impl), _short(model))
             # oracle
@@ -603,9 +679,8 @@ def run_repr_stream(ctx, G, Gf):
         w2 = w[1:] + w[:1]
         if w2 != w:
             m2 = [F(float(x)) for x in w2]
-            s2 = sum(m2)
-            e2l = [float(v) for v in geninv(lo, [m / s2 for m in m2], G)[0]]
-            e2r = [float(v) for v in geninv(hi, [m / s2 for m in m2], G)[0]]
+            e2l = [float(v) for v in geninv(lo, m2, G)[0]]
+            e2r = [float(v) for v in geninv(hi, m2, G)[0]]
             a2l, a2r = cmp_check(G, lo, w2)[1], cmp_check(G, hi, w2)[1]
             iv = [[a, b] for a, b in zip(lo, hi)]
             ivI = [I(a, b) for a, b in zip(lo, hi)]
@@ -700,9 +775,7 @@ def run(ctx: core.Check):
         cj = {"stream": stream, "lo": lo, "hi": hi, "w": w, "role": c["role"]}
         valid = (stream != "malformed")
         if valid:
-            em = exact_masses(n, w)
-            Stot = sum(em)
-            masses = [m / Stot for m in em]          # the valid DS structure (exact sum one) the property speaks about
+            masses = exact_masses(n, w)               # the masses as given, as exact rationals (no normalisation)
             ok_lo, amb_lo, so1, _ = cmp_check(G, lo, w)
             ok_hi, amb_hi, so2, _ = cmp_check(G, hi, w)
             exact = ok_lo and ok_hi
@@ -713,6 +786,8 @@ def run(ctx: core.Check):
             exp_r, sums_r = geninv(hi, masses, G)
             if any(any(c_ == p for p in G) for c_ in sums_l + sums_r):
                 ctx.bump("cases-with-exact-grid-hit")
+                if w is not None and float(np.sum(np.array(w))) != 1.0:
+                    ctx.bump("cases-with-exact-grid-hit-and-float-sum-" + ("above-1" if float(np.sum(np.array(w))) > 1 else "below-1"))
         first_ok = None
         for entry in ENTRIES:
             impl = run_entry(entry, lo, hi, w)
